@@ -223,6 +223,12 @@ func readerDocs(thorough bool) map[string][]byte {
 	for n, t := range map[string]string{"stray-arrend": "]", "stray-objend": "}", "stray-comma": ",", "stray-colon": ":", "stray-x": "x", "stray-minus": "-", "empty-input": " "} {
 		d[n] = []byte(t)
 	}
+	// numbers that compare equal but are different values / spellings (signed zeros, 1 vs 1.0)
+	d["zero"] = []byte(`0`)
+	d["negzero"] = []byte(`-0`)
+	d["zeros"] = []byte(`[0,-0,0.0,-0.0e1]`)
+	d["negzeros"] = []byte(`[-0,0]`)
+	d["ones"] = []byte(`[1,1.0,1e0,-1]`)
 	d["strtrunc"] = []byte(`["abc`)
 	d["strfull"] = []byte(`["abcdef",1]`)
 	d["topstrtrunc"] = []byte(`"abc`)
